@@ -5,7 +5,7 @@
 (* the call f(args) on evaluated argument values; functions or argument    *)
 (* combinations no property speaks about give EAny.                        *)
 (***************************************************************************)
-EXTENDS XLOps
+EXTENDS XLOps, XLText
 
 ETruth(b) == [k |-> "truth", b |-> b]     \* TRUE/FALSE, or 1/0 (Python truth values)
 EAnyNum == [k |-> "anynum"]
@@ -192,6 +192,61 @@ MatchExpect(args) ==
           ELSE EAny
 
 (***************************************************************************)
+(* C15  text                                                               *)
+(***************************************************************************)
+ERel(name, s) == [k |-> "rel", name |-> name, s |-> s]      \* output related to the input text s
+
+(* count argument: a non-negative integer, or omitted (default 1) *)
+CountOf(args, i, dflt) == IF Len(args) < i THEN dflt ELSE IF IsIntV(args[i]) THEN args[i].n ELSE -999999
+
+TextExpect(f, args) ==
+  IF args = <<>> \/ args[1].t # "txt" THEN EAny
+  ELSE LET s == args[1].s IN
+  CASE f \in {"LEFT", "RIGHT"} ->
+         IF Len(args) > 2 THEN EAny
+         ELSE LET n == CountOf(args, 2, 1) IN
+              IF n = -999999 THEN EAny
+              ELSE IF n < 0 THEN EErrs({"#VALUE!"})
+              ELSE EVal(Txt(IF f = "LEFT" THEN Left(s, n) ELSE Right(s, n)))
+    [] f = "MID" ->
+         IF Len(args) # 3 \/ ~IsIntV(args[2]) \/ ~IsIntV(args[3]) THEN EAny
+         ELSE IF args[3].n < 0 THEN EErrs({"#VALUE!"})
+         ELSE IF args[2].n < 1 THEN EAny
+         ELSE EVal(Txt(Mid(s, args[2].n, args[3].n)))
+    [] f = "LEN" -> IF Len(args) = 1 THEN EVal(IntV(Len(s))) ELSE EAny
+    [] f = "UPPER" -> IF Len(args) = 1 THEN ERel("upper", s) ELSE EAny
+    [] f = "LOWER" -> IF Len(args) = 1 THEN ERel("lower", s) ELSE EAny
+    [] f = "PROPER" -> IF Len(args) = 1 THEN ERel("proper", s) ELSE EAny
+    [] f = "TRIM" -> IF Len(args) = 1 THEN ERel("trim", s) ELSE EAny
+    [] f = "CLEAN" -> IF Len(args) = 1 THEN ERel("clean", s) ELSE EAny
+    [] f = "SUBSTITUTE" ->
+         IF Len(args) \notin {3, 4} \/ args[2].t # "txt" \/ args[3].t # "txt" THEN EAny
+         ELSE LET old == args[2].s
+                  new == args[3].s
+              IN IF old = <<>> \/ SelfOverlapping(old) THEN EAny
+                 ELSE IF Len(args) = 3 THEN EVal(Txt(SubstAll(s, old, new)))
+                 ELSE IF ~IsIntV(args[4]) \/ args[4].n < 1 THEN EAny
+                 ELSE EVal(Txt(SubstNth(s, old, new, args[4].n)))
+
+(* items of CONCATENATE: text, integers, blanks (as nothing), arrays of those *)
+JoinItemOK(v) == v.t \in {"txt", "blank"} \/ (v.t = "num" /\ v.d = 1)
+ConcatenateExpect(args) ==
+  LET xs == Flat(args) IN
+  IF xs = <<>> THEN EAny
+  ELSE IF \E i \in 1..Len(xs) : IsErr(xs[i]) /\ \A j \in 1..(i - 1) : JoinItemOK(xs[j]) THEN EVal(FirstErr(xs))
+  ELSE IF \A i \in 1..Len(xs) : JoinItemOK(xs[i]) THEN EVal(Txt(JoinSeq([i \in 1..Len(xs) |-> TextOf(xs[i])], <<>>)))
+  ELSE EAny
+
+(* TEXTJOIN(delimiter, ignore_empty, items...): items text and blanks *)
+TextJoinExpect(args) ==
+  IF Len(args) < 3 \/ args[1].t # "txt" \/ args[2].t # "bool" THEN EAny
+  ELSE LET xs == Flat(SubSeq(args, 3, Len(args)))
+       IN IF \E i \in 1..Len(xs) : xs[i].t \notin {"txt", "blank"} THEN EAny
+          ELSE IF args[2].b /\ \E i \in 1..Len(xs) : xs[i].t = "txt" /\ xs[i].s = <<>> THEN EAny   \* is empty text "empty"? not stated
+          ELSE LET kept == IF args[2].b THEN SelectSeq(xs, LAMBDA v : v.t = "txt") ELSE xs
+               IN EVal(Txt(JoinSeq([i \in 1..Len(kept) |-> TextOf(kept[i])], args[1].s)))
+
+(***************************************************************************)
 (* dispatcher                                                              *)
 (***************************************************************************)
 BuiltinExpect(f, args) ==
@@ -215,6 +270,12 @@ BuiltinExpect(f, args) ==
     [] f = "FALSE" -> IF args = <<>> THEN EVal(Bool(FALSE)) ELSE EAny
     [] f = "SUM" -> SumExpect(args)
     [] f = "ABS" -> AbsExpect(args)
+    [] f \in {"LEFT", "RIGHT", "MID", "LEN", "UPPER", "LOWER", "PROPER", "TRIM", "CLEAN", "SUBSTITUTE"} -> TextExpect(f, args)
+    [] f \in {"CONCATENATE", "CONCAT"} -> ConcatenateExpect(args)
+    [] f = "TEXTJOIN" -> TextJoinExpect(args)
+    [] f = "CHAR" -> IF Len(args) = 1 /\ IsIntV(args[1]) /\ args[1].n >= 1 /\ args[1].n <= 55295
+                     THEN EVal(Txt(<<args[1].n>>)) ELSE EAny
+    [] f = "CODE" -> IF Len(args) = 1 /\ args[1].t = "txt" /\ Len(args[1].s) = 1 THEN EVal(IntV(args[1].s[1])) ELSE EAny
     [] f = "CHOOSE" -> ChooseExpect(args)
     [] f = "INDEX" -> IndexExpect(args)
     [] f = "MATCH" -> MatchExpect(args)
@@ -224,6 +285,10 @@ BuiltinExpect(f, args) ==
 RECURSIVE MatchesF(_, _)
 MatchesF(e, y) ==
   CASE e.k = "alts" -> \E i \in 1..Len(e.es) : MatchesF(e.es[i], y)
+    [] e.k = "rel" -> y.t = "txt" /\
+         (CASE e.name = "upper" -> UpperRel(e.s, y.s) [] e.name = "lower" -> LowerRel(e.s, y.s)
+            [] e.name = "proper" -> ProperRel(e.s, y.s) [] e.name = "trim" -> TrimRel(e.s, y.s)
+            [] e.name = "clean" -> CleanRel(e.s, y.s))
     [] e.k = "posin" -> y.t = "num" /\ y.d = 1 /\ y.n \in e.ps
     [] e.k = "truth" -> (y.t = "bool" /\ y.b = e.b) \/ (y.t = "num" /\ y.d = 1 /\ y.n = (IF e.b THEN 1 ELSE 0))
     [] e.k = "anynum" -> y.t = "num"
